@@ -1,0 +1,8 @@
+//go:build !verif
+// +build !verif
+
+package onet
+
+// verifPoint marks a point of interest for the verification harness; without
+// the build tag "verif" it does nothing.
+func verifPoint(string, interface{}) {}
